@@ -224,8 +224,8 @@ def pure_note(fn):
     return f
 
 
-VD = dict(R=1, M=1, N=1, junk=True)
-VR = dict(R=1, M=1, N=1, ver_kinds=('int',))
+VD = dict(R=1, M=1, N=1, junk=True, thr_kinds=('int', 'float'))
+VR = dict(R=1, M=1, N=1, ver_kinds=('int',), thr_kinds=('int', 'float'))
 
 
 def pre(res, tier):
@@ -234,7 +234,7 @@ def pre(res, tier):
 
 def units(tier):
     q = tier == 'quick'
-    us = [Unit('barrier:verify_signable', pure_note(vsign.factory('c12s', PROPS, N=1 if q else 2, M=1, Loh=2, junk=True)), expect=('accepts',), max_witnesses=150),
+    us = [Unit('barrier:verify_signable', pure_note(vsign.factory('c12s', PROPS + ('C01', 'C02'), N=1 if q else 2, M=1, Loh=2, junk=True)), expect=('accepts',), max_witnesses=150),
           Unit('barrier:verify_delegation', pure_note(vdeleg.factory_vd('c12d', PROPS, **VD)), expect=('accepts',), max_witnesses=150),
           Unit('barrier:verify_root', pure_note(vdeleg.factory_vr('c12r', PROPS, **VR)), expect=('accepts',), max_witnesses=150),
           Unit('sequence:E1,E2,E1', seq_factory('c12q'), expect=('A/A/A', 'A/R/A', 'R/A/R', 'R/R/R'), max_witnesses=300),
@@ -308,7 +308,7 @@ def judge(case, obs):
     if sc == 'lemma':
         return None
     if sc == 'verify_signable':
-        return vsign.judge_verify_signable(case, obs, PROPS)
+        return vsign.judge_verify_signable(case, obs, PROPS + ('C01', 'C02'))
     if sc == 'verify_delegation':
         return vdeleg.judge_vd(case, obs, PROPS)
     if sc == 'verify_root':
